@@ -36,14 +36,14 @@ type invKey struct {
 
 // Binder learns the bijection between router-assigned ids and model symbols.
 type Binder struct {
-	sub, reg, pub       map[wamp.ID]int
-	subRev, regRev      map[int]wamp.ID
-	pubRev              map[int]wamp.ID
-	inv                 map[invKey]int
-	invRev              map[int]invKey
-	internalReg         map[wamp.ID]bool // registrations of the realm's own meta procedures
-	minClientReg        wamp.ID          // smallest registration id handed to a client
-	pubTopic            map[int]string   // publication symbol -> topic
+	sub, reg, pub  map[wamp.ID]int
+	subRev, regRev map[int]wamp.ID
+	pubRev         map[int]wamp.ID
+	inv            map[invKey]int
+	invRev         map[int]invKey
+	internalReg    map[wamp.ID]bool // registrations of the realm's own meta procedures
+	minClientReg   wamp.ID          // smallest registration id handed to a client
+	pubTopic       map[int]string   // publication symbol -> topic
 }
 
 func NewBinder() *Binder {
@@ -58,26 +58,26 @@ type SeqRealm struct {
 
 // Seq is the executor state.
 type Seq struct {
-	C      *Ctx
-	W      *World
-	Realms map[string]*SeqRealm
-	Slots  []*Sess // slot -> current session (nil if none)
-	MS     []*MSess
-	Step   int
-	maskIDs    []string              // ids of sessions ending concurrently: which of them an announcement names is not determined
-	lenientTo  map[int]bool          // sessions ending concurrently in this step: what else reaches them is not determined
-	metaRender map[invKey]MetaRender // (caller idx, request) -> renderer of the meta RESULT
-	MetaKill   bool
-	NetFaults  NetFaults
-	historyLearnt map[string]bool
+	C              *Ctx
+	W              *World
+	Realms         map[string]*SeqRealm
+	Slots          []*Sess // slot -> current session (nil if none)
+	MS             []*MSess
+	Step           int
+	maskIDs        []string              // ids of sessions ending concurrently: which of them an announcement names is not determined
+	lenientTo      map[int]bool          // sessions ending concurrently in this step: what else reaches them is not determined
+	metaRender     map[invKey]MetaRender // (caller idx, request) -> renderer of the meta RESULT
+	MetaKill       bool
+	NetFaults      NetFaults
+	historyLearnt  map[string]bool
 	IgnoreMetaOnce bool
-	MkRealm    func(uri string) (*router.RealmConfig, *MRealm) // for addrealm steps
-	Authz      *TableAuthz // the realm's Authorizer (nil: none)
-	LocalAuthz bool        // RequireLocalAuthz
-	curIdx   []int   // slot -> index into Slots of the session currently there (-1 none)
-	deadSess []*Sess // ended sessions: must not receive anything further
+	MkRealm        func(uri string) (*router.RealmConfig, *MRealm) // for addrealm steps
+	Authz          *TableAuthz                                     // the realm's Authorizer (nil: none)
+	LocalAuthz     bool                                            // RequireLocalAuthz
+	curIdx         []int                                           // slot -> index into Slots of the session currently there (-1 none)
+	deadSess       []*Sess                                         // ended sessions: must not receive anything further
 	// options
-	IgnoreMeta bool // do not compare meta events (properties that do not subscribe to wamp.*)
+	IgnoreMeta         bool // do not compare meta events (properties that do not subscribe to wamp.*)
 	CheckSenderPayload bool // C12: a recipient's modifications must not reach the sender's objects
 }
 
